@@ -185,39 +185,7 @@ def check(ctx):
 
     # ---------------------------------------------------------------- R19.4
     from . import subguard
-    nsub = nauto = 0
-    unguarded = {}
-    for k, (b, pk, info) in sorted(seen.items()):
-        sites = subguard.sub_sites(b)
-        if not sites:
-            continue
-        dom = cfg.Dom(b)
-        for bi, line, a, bb, ty in sites:
-            if ty not in subguard.UNSIGNED:
-                continue
-            nsub += 1
-            g, why = subguard.guarded(b, bi, a, bb, dom)
-            if g:
-                nauto += 1
-                ctx.ok("R19.4", "%s|sub@guarded" % fn_key(b, facts), "a - b is dominated by a guard implying a >= b (%s)" % why,
-                       where(b, line))
-            else:
-                unguarded.setdefault(fn_key(b, facts), []).append((b, line))
-    for key, sites in sorted(unguarded.items()):
-        allowed = SUB_TABLE.get(key)
-        b, line = sites[0]
-        if allowed and len(sites) <= allowed[0]:
-            ctx.ok("R19.4", key + "|sub", "%d reviewed subtraction(s) without a syntactic guard: %s" % (len(sites), allowed[1]),
-                   where(b, line))
-        else:
-            ctx.bad("R19.4", key + "|sub", "%d unsigned subtraction(s) (lines %s) without a dominating guard a >= b%s; an underflow "
-                    "panics in debug builds and wraps to a huge length/index in release builds; call chain: %s"
-                    % (len(sites), [l for _b, l in sites],
-                       " (%d were reviewed)" % allowed[0] if allowed else " and not in the reviewed table",
-                       " -> ".join(short(x) for x in cg.chain(seen, b))), where(b, sites[-1][1]))
-    ctx.counters["unsigned_subtractions"] = nsub
-    ctx.counters["subtractions_discharged_by_guard"] = nauto
-    ctx.require_floor("R19.4", "unsigned_subtractions", nsub, 20)
+    subguard.inventory(ctx, facts, cg, seen, "R19.4", SUB_TABLE, 20)
 
     # ---------------------------------------------------------------- R19.3
     pi = facts.body(ll.PARSE_INTO)
